@@ -144,6 +144,46 @@ Theorem C14_dist_client_error_is_an_error_outcome :
 Proof. intros o st. split; reflexivity. Qed.
 Print Assumptions C14_dist_client_error_is_an_error_outcome.
 
+(* EVERY compile request — whatever its argument list, also an empty one (`sccache gcc`) — is counted in exactly one
+   of the four request classes: the program of every request kind bumps compile_requests once and exactly one of
+   requests_executed / requests_not_cacheable / requests_not_compile / requests_unsupported_compiler once.  (There
+   is no exit from `handle_compile` that skips `check_compiler`.) *)
+Theorem C14_every_request_in_one_class :
+  (forall k : request_kind,
+      let t := tsum (program k) in
+      t_requests t = 1 /\ t_executed t + t_not_cacheable t + t_not_compile t + t_unsupported t = 1)
+  /\ (forall f cl cc o st, exists k, snd (request f cl cc o st) = program k).
+Proof.
+  split.
+  - intro k. cbv zeta.
+    destruct k as [| |why|l oc]; [| | |destruct oc as [|mt stored| | | | |]; [|destruct mt, stored| | | | |]];
+      split; reflexivity.
+  - intros f cl cc o st. eexists. apply request_program.
+Qed.
+Print Assumptions C14_every_request_in_one_class.
+
+(* A compiler (or preprocessor) that does not EXIT but is killed by a signal gives no exit code; in the model that
+   is just another unsuccessful status (the harness reports 256 + signal).  The request is still an executed
+   request with exactly one outcome: a killed compiler is a failed compile (compile_fails), a killed
+   preprocessor the error class (cache_errors) — for every status other than 0. *)
+Theorem C14_unsuccessful_status_has_an_outcome :
+  (forall f o st1 k pp mt,
+      o_c_panics o = false -> o_c_status o <> 0 ->
+      compile_and_store f o st1 k pp mt
+      = (st1, mk_response (CFinished (o_c_status o) (o_c_stdout o) (o_c_stderr o)) [] pp 1 OCompileFailed))
+  /\ (forall f o st1,
+      o_pp_panics o = false -> o_pp_status o <> 0 ->
+      hk_preprocess f o st1 = (st1, HKError, 1))
+  /\ (forall l, in_class CFailed (KExecuted l OCompileFailed) = true /\ in_class CErr (KExecuted l OError) = true).
+Proof.
+  split; [|split].
+  - intros f o st1 k pp mt Hp Hs. unfold compile_and_store. rewrite Hp.
+    apply N.eqb_neq in Hs. rewrite Hs. reflexivity.
+  - intros f o st1 Hp Hs. unfold hk_preprocess. rewrite Hp. apply N.eqb_neq in Hs. rewrite Hs. reflexivity.
+  - intro l. split; reflexivity.
+Qed.
+Print Assumptions C14_unsuccessful_status_has_an_outcome.
+
 (* Zeroing while a request is in flight breaks the laws at the next quiescent point (inherent: the request's
    earlier increments are wiped, its later ones are not); the property's "zeroing in between" is therefore
    zeroing at quiescent points, as in [run_history]. *)
